@@ -128,4 +128,26 @@ theorem c16_granted_sub_polls_like_sync (a : AWorld) (i : Nat) (hal : a.w.subAli
   simp only [hal, Bool.not_true, Bool.false_eq_true, if_false, hg, OWorld.pollW_self, hp]
   exact ⟨_, _, rfl, by simp [AWorld.releaseN, grant_w]⟩
 
+/-- **`next_ref()` hands out the current value and marks it observed.** When the second lock acquisition of a
+    `next_ref()` future of subscriber `i` has been granted, its completion is exactly the default flavour's
+    `next_ref_now`: the guard shows the value current *at that moment* (whatever was written between the update
+    check and the acquisition), that version is the observed one afterwards, and the guard holds one read permit. -/
+theorem c16_next_ref_completes_like_next_now (eqv : Nat → Nat → Bool) (hash : Nat → Nat) (a : AWorld) (k i : Nat) (f : AFut)
+    (hf : a.futs[k]? = some f) (hk : f.kind = .nextRef i) (hst : f.st = .granted)
+    (w' : OWorld Nat) (v : Nat) (hn : a.w.nextNow i = some (w', v)) :
+    ∃ a' rs, a.finishFut eqv hash k = some (a', rs, [], []) ∧ a'.w = w' ∧ a'.guards = a.guards ++ [1] ∧ a'.sem = a.sem ∧
+      v = a.w.st.value ∧ ∃ s', w'.subs[i]? = some s' ∧ s'.fresh = false := by
+  have h3 := c01_next_now_marks a.w w' i v hn
+  simp only [AWorld.finishFut, hf, hst, ne_eq, not_true_eq_false, if_false]
+  simp only [hk, hn]
+  exact ⟨_, _, rfl, rfl, rfl, rfl, h3.1, h3.2.2⟩
+
+/-- a `next_ref()` future whose update check finds nothing new stays pending and leaves the subscriber parked
+    with the *future's* waker: the next notifying write wakes that task -/
+theorem c16_next_ref_pending_registers (eqv : Nat → Nat → Bool) (hash : Nat → Nat) (a a1 : AWorld) (k i : Nat) (f : AFut)
+    (lw : List AOwner) (hf : a.futs[k]? = some f) (hk : f.kind = .nextRef i) (hst : f.st = .idle)
+    (hp : a.pollSub i (futWaker k) = some (a1, .pending, lw)) :
+    a.pollNextRef eqv hash k = some (a1, none, lw) := by
+  simp only [AWorld.pollNextRef, hf, hk, hst, hp]
+
 end EV
